@@ -23,6 +23,8 @@ pub struct Plan<'a> {
     pub scenarios: Vec<Scenario>,
     pub configs: Box<dyn Fn(&Scenario) -> Vec<Config> + Sync + 'a>,
     pub bound: u32,
+    /// Per-job override of the deviation bound (None = `bound`).
+    pub bound_for: Option<Box<dyn Fn(&Scenario, &Config) -> u32 + Sync + 'a>>,
     /// Also run the unbounded explicit-state search on jobs for which this returns a state cap.
     pub explicit: Box<dyn Fn(&Scenario, &Config) -> Option<usize> + Sync + 'a>,
     pub monitor: &'a MonitorFactory,
@@ -302,7 +304,7 @@ pub fn run_plan(plan: Plan) -> Result<Report, String> {
                     reference,
                     monitor: plan.monitor,
                     oracle: plan.oracle,
-                    bound: plan.bound,
+                    bound: plan.bound_for.as_ref().map(|f| f(sc, cfg)).unwrap_or(plan.bound),
                     budget: &budget,
                 };
                 let col = explore_subtree(&ctx, vec![], 0, 2);
